@@ -2,6 +2,9 @@ package chainsim
 
 import (
 	"crypto/sha256"
+	"math/big"
+
+	"github.com/btcsuite/btcd/btcec"
 	"encoding/binary"
 
 	tmed "github.com/tendermint/tendermint/crypto/ed25519"
@@ -160,6 +163,58 @@ func (a *Account) Sign(msg []byte) []byte {
 }
 
 func (a *Account) IsMulti() bool { return a.Priv == nil }
+
+// secpSignWithNonce is ECDSA on secp256k1 over SHA-256(msg) with a caller-chosen nonce, in lower-S form:
+// a second (third, ...) valid signature by the same key for the same message, with other bytes.
+func secpSignWithNonce(priv crypto.Secp256k1PrivateKey, msg []byte, nonce int64) []byte {
+	curve := btcec.S256()
+	n := curve.N
+	d := new(big.Int).SetBytes(priv[:])
+	zh := sha256.Sum256(msg)
+	z := new(big.Int).SetBytes(zh[:])
+	kh := sha256.Sum256(append(append([]byte{}, priv[:]...), byte(nonce), byte(nonce>>8), 'k'))
+	k := new(big.Int).SetBytes(kh[:])
+	k.Mod(k, new(big.Int).Sub(n, big.NewInt(1)))
+	k.Add(k, big.NewInt(1))
+	rx, _ := curve.ScalarBaseMult(k.Bytes())
+	r := new(big.Int).Mod(rx, n)
+	kinv := new(big.Int).ModInverse(k, n)
+	sv := new(big.Int).Mul(r, d)
+	sv.Add(sv, z)
+	sv.Mul(sv, kinv)
+	sv.Mod(sv, n)
+	if sv.Cmp(new(big.Int).Rsh(n, 1)) > 0 {
+		sv.Sub(n, sv)
+	}
+	out := make([]byte, 64)
+	rb, sb := r.Bytes(), sv.Bytes()
+	copy(out[32-len(rb):32], rb)
+	copy(out[64-len(sb):64], sb)
+	return out
+}
+
+// SignAllSlotsBy: every position of the (top-level) multisignature is filled with a different valid signature
+// made by ONE member key (the first secp256k1 member; nil if there is none): the other members did not sign.
+func (a *Account) SignAllSlotsBy(msg []byte) []byte {
+	if a.Priv != nil {
+		return nil
+	}
+	var signer *crypto.Secp256k1PrivateKey
+	for _, sub := range a.Subs {
+		if p, ok := sub.Priv.(crypto.Secp256k1PrivateKey); ok && signer == nil {
+			pp := p
+			signer = &pp
+		}
+	}
+	if signer == nil {
+		return nil
+	}
+	ms := crypto.MultiSignature{}
+	for i := range a.Subs {
+		ms.Sigs = append(ms.Sigs, secpSignWithNonce(*signer, msg, int64(i+1)))
+	}
+	return ms.Marshal()
+}
 
 // SignShort is Sign with one signature left out of the innermost multisignature (a nested component if there is
 // one, the top level otherwise): somebody did not sign.
